@@ -166,7 +166,7 @@ def impl(case):
             for g in f[1:]:
                 v = np.kron(v, g)
         # overall scale of the vector: the truncation rule is relative, the bound must hold at every scale
-        v = v * float(rs.choice([1e-6, 1e-3, 0.1, 1.0, 1.0, 30.0, 1e4]))
+        v = v * float(rs.choice([1e-11, 1e-6, 1e-3, 0.1, 1.0, 1.0, 30.0, 1e4]))
         try:
             psi = ptn.MPS.from_vector(d, n, v, tol=tol)
         except Exception as e:
